@@ -34,6 +34,7 @@ type Facts struct {
 	PanicSiteCounts  map[string]int `json:"panicSiteCounts"`
 	PanicRootsMissed []string       `json:"panicRootsMissing,omitempty"`
 	PanicSitesError  string         `json:"panicSitesError,omitempty"`
+	V4ValTypes       []string       `json:"v4valTypes,omitempty"` // DHCPv4 value types with a FromBytes method
 	MissT  map[string]string   `json:"missing_types,omitempty"` // Lean type of a missing fact when not Nat
 }
 
